@@ -163,11 +163,13 @@ def case(ch):
     if outmode:
         cfg["out_base"] = os.path.join(bw.tmpdir(), "c06out")
         cfg["compressed"] = outmode == 2
+    if outmode == 1 and ch.chance("via_cli", 1, 2):
+        cfg["via_cli"] = True          # run through AegeanTools/CLI/BANE.py main(argv); maps read back from its files
     img = bw.make_image(cfg, content)
     vals = _file_values(cfg, img)
     fn = bw.write_image(os.path.join(bw.tmpdir(), "c06.fits"), cfg, img)
     out.sample = {"config": _cfg_str(cfg), "content": {k: content[k] for k in ("kind", "offset_pow", "sigma_pow", "blank")},
-                  "file_output": ("none", "plain", "compressed")[outmode], "relations": []}
+                  "file_output": ("none", "plain", "compressed")[outmode], "via_cli": bool(cfg.get("via_cli")), "relations": []}
 
     sched = bw.gen_sched(ch, hot, line) if ch.chance("random_sched", 3, 4) else bw.canonical_sched(hot, line)
     r0 = _run(fn, cfg, sched, ch, fill="payload")
@@ -184,7 +186,9 @@ def case(ch):
     finite = np.isfinite(vals)
 
     # ---- files written by filter_image carry the returned maps
-    if outmode == 1:
+    if cfg.get("via_cli"):
+        out.stats["probe:via_command_line"] += 1
+    if outmode == 1 and not cfg.get("via_cli"):
         out.stats["oracle:files_equal_maps"] += 1
         fits = bw._state["fits"]
         for suffix, arr in (("_bkg.fits", r0.bkg), ("_rms.fits", r0.rms)):
